@@ -273,7 +273,15 @@ def run(ctx):
                 "with and without caller-supplied Tv / sigma, T_sigma, RQ_sigma, controlled_mc, evaluate_policy, "
                 "backward_induction, form conversion; v fresh or an array returned earlier, i.e. T(T(v))): every returned array "
                 "is kept and after every later call re-checked bitwise, np.shares_memory between any two results / inputs / the "
-                "object's arrays must be False, inputs and the object's R, Q, s_indices, a_indices, a_indptr stay bitwise unchanged")
+                "object's arrays must be False, inputs and the object's R, Q, s_indices, a_indices, a_indptr stay bitwise unchanged; "
+                "the histories also reassign ddp.beta and edit ddp.R / ddp.Q in place between calls (later answers must be those of "
+                "the CURRENT state; the bellman / T_sigma answers are compared once more through the model's `run`); "
+                "plus, per valid instance, an ARGUMENT-FORMS run: the same problem and calls with beta as Python / NumPy scalar / "
+                "bool / 0-d array, R / Q as nested lists, tuples, ndarrays (float32, integer dtypes where exact, C / F / strided / "
+                "reversed views), sparse Q as csr / csc / coo / lil with int32 / int64 indices and stored zeros, index and policy "
+                "vectors as list / tuple / every integer width, v / v_term as list / tuple / float32 / integer arrays / views (v "
+                "not integer-valued half of the time), T as Python / NumPy integer / 0-d array, optional arguments omitted / None "
+                "/ positional / keyword, strided output arrays; inputs bitwise unchanged, no aliasing")
 
     # ---------------------------------------------------------------- generators
     def gen_valid():
